@@ -6,7 +6,9 @@
   before parents, reset of the memoised facts of every notified node), `sym_rebind` (notification
   unless `skip_notification` / `notify_on_change(False)`), the accessor writes of dict.py / list.py /
   object.py (single update, notified under `flags.is_change_notification_enabled()`), `Dict.update`
-  (`skip_notification=True`) and the mutators that notify nobody (`clear`, `reverse`, `popitem`).
+  (`skip_notification=True`). THE MODEL MIRRORS THE TREE WITH fixes/C09-F55.patch AND fixes/C09-F110.patch
+  APPLIED: `clear`, `popitem`, `sort`, `reverse` report what they removed / moved, `del l[-1]` reports
+  the position.
 
   Simplifications (stated in the evidence): the three memoised facts (`_sym_missing_values`,
   `_sym_nondefault_values`, `_sym_puresymbolic`) are reset together by the code and are read
@@ -190,7 +192,14 @@ inductive Op where
   | extend (vs : List T)                  -- l.extend(vs) / l += vs: one batched notification
   | rebind (pairs : List (Path × T))      -- paths relative to the receiver
   | update (kvs : List (Key × T))         -- Dict.update: rebind with skip_notification=True
-  | clear | reverse | popitem             -- mutators that notify nobody
+  | clear | reverse | popitem | sort      -- (fix C09-F55) report what they removed / moved
+  -- list operations that shift positions (list.py: insert, __delitem__ / pop / remove, slices, `*=`)
+  | insert (i : Int) (v : T)
+  | delIdx (i : Int)                      -- del l[i] / l.pop(i)
+  | remove (a : Atom)
+  | setSlice (a b st : Option Int) (vs : List T)
+  | delSlice (a b st : Option Int)
+  | imul (k : Int)
   deriving Repr
 
 structure Out where
@@ -256,18 +265,202 @@ def finish (root' : T) (ups : List (Update × Path)) (notify : Bool) : Out :=
   else { tree := root', ok := true, events := [] }
 
 inductive OpKind where
-  | setKey | delKey | append | extend | rebind | update | clear | reverse | popitem
+  | setKey | delKey | append | extend | rebind | update | clear | reverse | popitem | sort
+  | insert | delIdx | remove | setSlice | delSlice | imul
   deriving DecidableEq, Repr
 
 def Op.kind : Op → OpKind
   | .setKey _ _ => .setKey | .delKey _ => .delKey | .append _ => .append | .extend _ => .extend
   | .rebind _ => .rebind
-  | .update _ => .update | .clear => .clear | .reverse => .reverse | .popitem => .popitem
+  | .update _ => .update | .clear => .clear | .reverse => .reverse | .popitem => .popitem | .sort => .sort
+  | .insert _ _ => .insert | .delIdx _ => .delIdx | .remove _ => .remove | .setSlice _ _ _ _ => .setSlice
+  | .delSlice _ _ _ => .delSlice | .imul _ => .imul
 
 /-- A mutator that goes around the write primitive (`clear`, `reverse`, `popitem`): raw change of
 the receiver, invalidation of its chain, nobody is notified. -/
 def rawStep (g : T → T) (root : T) (recv : Path) : Out :=
   { tree := resetChain (mapAt g root recv) recv, ok := true, events := [] }
+
+/-! ### list operations that shift positions
+
+Each is a pure *edit* of the list's values: the new values and the FieldUpdates the code records
+(position, old, new; `none` = MISSING_VALUE), in the order in which it records them:
+`insert` reports (MISSING -> value) at the insertion position; a deletion reports (item -> MISSING) at
+the position the item had *before* the call (slices: from the largest position down); a step-1 slice
+assignment reports replacements (old -> new, skipped when `old is new`), then insertions
+(MISSING -> value) for surplus values or removals (item -> MISSING) for the shortfall, all at
+`start + i`; an extended slice reports replacements at its positions in ascending order. -/
+
+structure Edit where
+  vals : List T
+  ents : List (Nat × Option T × Option T)
+
+def atomSame : T → T → Bool
+  | .leaf a, .leaf b => a == b
+  | _, _ => false
+
+def isLeafEq (a : Atom) : T → Bool
+  | .leaf b => a == b
+  | _ => false
+
+def editInsert (i : Int) (v : T) (xs : List T) : Option Edit :=
+  let p := Pg.C08.insertPos xs.length i
+  some { vals := Pg.C08.insertAt xs p v, ents := [(p, none, some v)] }
+
+def editDelIdx (i : Int) (xs : List T) : Option Edit :=
+  match Pg.C08.normIdx xs.length i with
+  | none => none
+  | some j => some { vals := xs.eraseIdx j, ents := [(j, xs[j]?, none)] }
+
+def editRemove (a : Atom) (xs : List T) : Option Edit :=
+  match xs.findIdx? (isLeafEq a) with
+  | none => none
+  | some j => some { vals := xs.eraseIdx j, ents := [(j, xs[j]?, none)] }
+
+def editDelSlice (a b st : Option Int) (xs : List T) : Option Edit :=
+  match Pg.C08.sliceRange xs.length a b st with
+  | none => none
+  | some (_, _, step, ps) =>
+    let desc := if step > 0 then ps.reverse else ps        -- sorted(range(...), reverse=True)
+    some { vals := Pg.C08.eraseAll xs ps, ents := desc.map fun p => (p, xs[p]?, none) }
+
+/-- entries of `l[start:start+size] = vs` (step 1), position by position. -/
+def sliceEnts (xs : List T) (start size : Nat) (vs : List T) : Nat → List (Nat × Option T × Option T)
+  | 0 => []
+  | c + 1 =>
+    let i := (max size vs.length) - (c + 1)
+    let rest := sliceEnts xs start size vs c
+    match decide (i < size), vs[i]? with
+    | true, some v =>
+      match xs[start + i]? with
+      | some o => if atomSame o v then rest else (start + i, some o, some v) :: rest
+      | none => (start + i, none, some v) :: rest
+    | false, some v => (start + i, none, some v) :: rest
+    | true, none => (start + i, xs[start + i]?, none) :: rest
+    | false, none => rest
+
+def replEnts (xs : List T) : List Nat → List T → List (Nat × Option T × Option T)
+  | p :: ps, v :: vs =>
+    match xs[p]? with
+    | some o => if atomSame o v then replEnts xs ps vs else (p, some o, some v) :: replEnts xs ps vs
+    | none => replEnts xs ps vs
+  | _, _ => []
+
+/-- `notifyOn = false` and fewer values than positions: the code leaves MISSING_VALUE placeholders
+in the list (known finding C02-F03); that combination is not modelled (`none` = outside the model,
+reported as a failing call). -/
+def editSetSlice (notifyOn : Bool) (a b st : Option Int) (vs : List T) (xs : List T) : Option Edit :=
+  match Pg.C08.sliceRange xs.length a b st with
+  | none => none
+  | some (start, stop, step, ps) =>
+    if step = 1 then
+      let s := start.toNat
+      let size := (max s stop.toNat) - s
+      if !notifyOn && vs.length < size then none
+      else some { vals := xs.take s ++ vs ++ xs.drop (s + size),
+                  ents := sliceEnts xs s size vs (max size vs.length) }
+    else if ps.length ≠ vs.length then none
+    else
+      let asc := if step > 0 then (ps, vs) else (ps.reverse, vs.reverse)
+      some { vals := Pg.C08.setAll xs ps vs, ents := replEnts xs asc.1 asc.2 }
+
+def repeatVals (xs : List T) : Nat → List T
+  | 0 => []
+  | n + 1 => xs ++ repeatVals xs n
+
+def appendEnts (n : Nat) : List T → List (Nat × Option T × Option T)
+  | [] => []
+  | v :: vs => (n, none, some v) :: appendEnts (n + 1) vs
+
+def clearEnts (n : Nat) : List T → List (Nat × Option T × Option T)
+  | [] => []
+  | v :: vs => (n, some v, none) :: clearEnts (n + 1) vs
+
+/-- `List.clear()` (fix C09-F55): every removed item is reported (item -> MISSING) at its position. -/
+def editClear (xs : List T) : Option Edit := some { vals := [], ents := clearEnts 0 xs }
+
+/-- Positions whose item is not the former one after an in-place reordering (`new is not old`);
+`src i` = the former position of the item now at `i`. -/
+def movedEnts (old new : List T) (src : Nat → Nat) : Nat → List (Nat × Option T × Option T)
+  | 0 => []
+  | c + 1 =>
+    let i := old.length - (c + 1)
+    let rest := movedEnts old new src c
+    match old[i]?, new[i]? with
+    | some o, some n => if src i == i || atomSame o n then rest else (i, some o, some n) :: rest
+    | _, _ => rest
+
+/-- `List.reverse()` (fix C09-F55). -/
+def editReverse (xs : List T) : Option Edit :=
+  some { vals := xs.reverse, ents := movedEnts xs xs.reverse (fun i => xs.length - 1 - i) xs.length }
+
+def intOf? : T → Option Int
+  | .leaf (.int i) => some i
+  | _ => none
+
+def allInts : List T → Option (List Int)
+  | [] => some []
+  | t :: ts => match intOf? t, allInts ts with
+    | some i, some is => some (i :: is)
+    | _, _ => none
+
+/-- `List.sort()` (fix C09-F55) on a list of ints (a list of at most one item is left alone; other
+lists are not comparable element-wise: TypeError, the list in an unspecified order — not modelled).
+Equal ints are the same object, so `src` plays no role. -/
+def editSort (xs : List T) : Option Edit :=
+  match allInts xs with
+  | some is =>
+    let ys := (Pg.C08.sortInts is).map fun i => T.leaf (.int i)
+    some { vals := ys, ents := movedEnts xs ys (fun _ => xs.length) xs.length }
+  | none => if xs.length ≤ 1 then some { vals := xs, ents := [] } else none
+
+/-- `l *= k`: `clear()` for k <= 0, else `extend` with k-1 copies. -/
+def editIMul (k : Int) (xs : List T) : Option Edit :=
+  if k ≤ 0 then editClear xs
+  else
+    let copies := repeatVals xs (k.toNat - 1)
+    some { vals := xs ++ copies, ents := appendEnts xs.length copies }
+
+def indexed (vs : List T) : List (Key × T) :=
+  (List.range vs.length).zip vs |>.map fun (i, t) => (Key.i i, t)
+
+def setVals (vs : List T) : T → T
+  | .leaf a => .leaf a
+  | .node m k _ => .node m k (indexed vs)
+
+/-- Run an edit on the list at `recv`: new values (re-indexed), invalidation of the chain, then the
+notification of the recorded updates (all owned by the list itself). -/
+def applyEdit (root : T) (recv : Path) (notify : Bool) (f : List T → Option Edit) : Out :=
+  match getAt root recv with
+  | some (.node _ .list items) =>
+    match f (items.map (·.2)) with
+    | none => { tree := root, ok := false, events := [] }
+    | some e =>
+      finish (resetChain (mapAt (setVals e.vals) root recv) recv)
+        (e.ents.map fun x => ({ path := recv ++ [Key.i x.1], old := x.2.1, new := x.2.2 }, recv)) notify
+  | _ => { tree := root, ok := false, events := [] }
+
+/-- `Dict.clear()` / `Dict.popitem()` (fix C09-F55): the removed keys are reported (value -> MISSING). -/
+def applyKeyEdit (root : T) (recv : Path) (notify : Bool)
+    (f : List (Key × T) → Option (List (Key × T) × List (Key × Option T × Option T))) : Out :=
+  match getAt root recv with
+  | some (.node _ .dict items) =>
+    match f items with
+    | none => { tree := root, ok := false, events := [] }
+    | some (items', ents) =>
+      finish (resetChain (mapAt (fun t => match t with
+          | .leaf a => .leaf a
+          | .node m k _ => .node m k items') root recv) recv)
+        (ents.map fun x => ({ path := recv ++ [x.1], old := x.2.1, new := x.2.2 }, recv)) notify
+  | _ => { tree := root, ok := false, events := [] }
+
+def dictClear (items : List (Key × T)) : Option (List (Key × T) × List (Key × Option T × Option T)) :=
+  some ([], items.map fun kv => (kv.1, some kv.2, none))
+
+def dictPopitem (items : List (Key × T)) : Option (List (Key × T) × List (Key × Option T × Option T)) :=
+  match items.getLast? with
+  | none => none                                   -- KeyError: the dict is empty
+  | some kv => some (items.dropLast, [(kv.1, some kv.2, none)])
 
 /-- One public call on the node at `recv`, inside `notify_on_change(notifyOn)`. -/
 def step (root : T) (recv : Path) (notifyOn : Bool) : Op → Out
@@ -311,9 +504,19 @@ def step (root : T) (recv : Path) (notifyOn : Bool) : Op → Out
     match writeAll root recv (kvs.map fun (k, v) => ([k], v)) [] with
     | none => { tree := root, ok := false, events := [] }
     | some (r', ups) => finish r' ups false                              -- skip_notification=True
-  | .clear => rawStep rawClear root recv
-  | .reverse => rawStep rawReverse root recv
-  | .popitem => rawStep rawPopitem root recv
+  | .clear =>
+    match getAt root recv with
+    | some (.node _ .list _) => applyEdit root recv notifyOn editClear
+    | _ => applyKeyEdit root recv notifyOn dictClear
+  | .reverse => applyEdit root recv notifyOn editReverse
+  | .sort => applyEdit root recv notifyOn editSort
+  | .popitem => applyKeyEdit root recv notifyOn dictPopitem
+  | .insert i v => applyEdit root recv notifyOn (editInsert i v)
+  | .delIdx i => applyEdit root recv notifyOn (editDelIdx i)
+  | .remove a => applyEdit root recv notifyOn (editRemove a)
+  | .setSlice a b st vs => applyEdit root recv notifyOn (editSetSlice notifyOn a b st vs)
+  | .delSlice a b st => applyEdit root recv notifyOn (editDelSlice a b st)
+  | .imul k => applyEdit root recv notifyOn (editIMul k)
 
 /-! ### derived state: reads -/
 
